@@ -9,7 +9,9 @@ EXTENDS Integers, Sequences, FiniteSets, TLC, Json
 
 CONSTANTS Peers,               \* stalling peers
           Probe,               \* a well-behaved client connecting while they stall
-          LogInAcceptLoop      \* Serve evaluates conn.RemoteAddr() before the hand-off (blocks on a PROXY header)
+          LogInAcceptLoop,     \* Serve evaluates conn.RemoteAddr() before the hand-off (blocks on a PROXY header)
+          HeadFromWaitStart    \* mutant: the read-header deadline is computed from the start of the idle wait,
+                               \* not from the first byte of the request head
 
 Limit == [pp |-> 2, tls |-> 5, idle |-> 7, head |-> 4, mitm |-> 5]   \* distinct so a mixed-up limit shows
 Horizon == 12
@@ -23,15 +25,17 @@ Phases(st) == CASE st = "plain" -> <<"idle", "head", "rt", "idle">>
 Limited(ph) == ph # "rt"
 Conns == Peers \cup {Probe}
 
-VARIABLES stacking, clock, pos, since, stallAt, closedAt, served,
+VARIABLES stacking, clock, pos, since, entered, stallAt, closedAt, served,
           loop, queue        \* accept loop: "accept" | <<"blocked", c>> ; connections waiting to be accepted
-vars == <<stacking, clock, pos, since, stallAt, closedAt, served, loop, queue>>
+\* since = the instant the implementation computes the current phase's deadline from;
+\* entered = the instant the phase really began (what the statement's limits refer to)
+vars == <<stacking, clock, pos, since, entered, stallAt, closedAt, served, loop, queue>>
 
 PhaseOf(c) == Phases(stacking)[pos[c]]
 InQueue(c) == \E i \in 1..Len(queue) : queue[i] = c
 Init == /\ stacking \in Stackings /\ clock = 0
         /\ pos = [c \in Conns |-> 0]                 \* 0 = not yet handed to its goroutine
-        /\ since = [c \in Conns |-> 0]
+        /\ since = [c \in Conns |-> 0] /\ entered = [c \in Conns |-> 0]
         /\ stallAt \in [Peers -> 1..4]               \* index of the phase in which the peer stops
         /\ closedAt = [c \in Conns |-> -1] /\ served = [c \in Conns |-> FALSE]
         /\ loop = "accept" /\ queue = <<>>
@@ -39,13 +43,13 @@ Init == /\ stacking \in Stackings /\ clock = 0
 Connect(c) == /\ pos[c] = 0 /\ closedAt[c] = -1 /\ ~InQueue(c) /\ loop # c
               /\ (c = Probe => \A p \in Peers : pos[p] > 0 \/ InQueue(p) \/ loop = p)   \* the probe comes last
               /\ queue' = Append(queue, c)
-              /\ UNCHANGED <<stacking, clock, pos, since, stallAt, closedAt, served, loop>>
+              /\ UNCHANGED <<stacking, clock, pos, since, entered, stallAt, closedAt, served, loop>>
 \* Serve: Accept, then `go handleLoop(conn)`; with LogInAcceptLoop the loop first waits for the PROXY header
 Accept == /\ loop = "accept" /\ queue # <<>>
           /\ LET c == Head(queue) IN
              IF LogInAcceptLoop /\ stacking \in {"pp", "pptls"}
-             THEN loop' = c /\ since' = [since EXCEPT ![c] = clock] /\ UNCHANGED pos
-             ELSE loop' = "accept" /\ pos' = [pos EXCEPT ![c] = 1] /\ since' = [since EXCEPT ![c] = clock]
+             THEN loop' = c /\ since' = [since EXCEPT ![c] = clock] /\ entered' = [entered EXCEPT ![c] = clock] /\ UNCHANGED pos
+             ELSE loop' = "accept" /\ pos' = [pos EXCEPT ![c] = 1] /\ since' = [since EXCEPT ![c] = clock] /\ entered' = [entered EXCEPT ![c] = clock]
           /\ queue' = Tail(queue)
           /\ UNCHANGED <<stacking, clock, stallAt, closedAt, served>>
 \* the blocked loop continues when the header arrives or its timer fires
@@ -54,19 +58,21 @@ Unblock == /\ loop \in Conns
               /\ \/ (c = Probe \/ stallAt[c] > 1)                          \* header arrived
                  \/ clock >= since[c] + Limit.pp                            \* header timer
               /\ pos' = [pos EXCEPT ![c] = 1] /\ loop' = "accept"
-           /\ UNCHANGED <<stacking, clock, since, stallAt, closedAt, served, queue>>
+           /\ UNCHANGED <<stacking, clock, since, entered, stallAt, closedAt, served, queue>>
 \* the peer completes its current phase (unless it stalls there)
 Progress(c) == /\ pos[c] >= 1 /\ closedAt[c] = -1 /\ pos[c] < Len(Phases(stacking))
                /\ (c \in Peers => stallAt[c] # pos[c])
                /\ (PhaseOf(c) = "pp" => loop # c)
-               /\ pos' = [pos EXCEPT ![c] = @ + 1] /\ since' = [since EXCEPT ![c] = clock]
+               /\ pos' = [pos EXCEPT ![c] = @ + 1] /\ entered' = [entered EXCEPT ![c] = clock]
+               /\ since' = [since EXCEPT ![c] = IF HeadFromWaitStart /\ PhaseOf(c) = "idle" /\ Phases(stacking)[pos[c] + 1] = "head"
+                                                 THEN @ ELSE clock]
                /\ served' = [served EXCEPT ![c] = @ \/ PhaseOf(c) = "rt"]
                /\ UNCHANGED <<stacking, clock, stallAt, closedAt, loop, queue>>
 \* the deadline of the current phase fires
 Expire(c) == /\ pos[c] >= 1 /\ closedAt[c] = -1 /\ Limited(PhaseOf(c))
              /\ clock >= since[c] + Limit[PhaseOf(c)]
              /\ closedAt' = [closedAt EXCEPT ![c] = clock]
-             /\ UNCHANGED <<stacking, clock, pos, since, stallAt, served, loop, queue>>
+             /\ UNCHANGED <<stacking, clock, pos, since, entered, stallAt, served, loop, queue>>
 \* time passes, but not past a deadline that is due (timers fire on time)
 Tick == /\ clock < Horizon
         /\ \A c \in Conns : ~(pos[c] >= 1 /\ closedAt[c] = -1 /\ Limited(PhaseOf(c)) /\ clock >= since[c] + Limit[PhaseOf(c)])
@@ -74,17 +80,17 @@ Tick == /\ clock < Horizon
         \* the probe is well-behaved: it never lets time pass while it is its turn to send
         /\ ~(pos[Probe] >= 1 /\ closedAt[Probe] = -1 /\ pos[Probe] < Len(Phases(stacking)) /\ PhaseOf(Probe) # "rt")
         /\ clock' = clock + 1
-        /\ UNCHANGED <<stacking, pos, since, stallAt, closedAt, served, loop, queue>>
+        /\ UNCHANGED <<stacking, pos, since, entered, stallAt, closedAt, served, loop, queue>>
 
 Next == Accept \/ Unblock \/ Tick \/ \E c \in Conns : Connect(c) \/ Progress(c) \/ Expire(c)
 Spec == Init /\ [][Next]_vars /\ WF_vars(Accept) /\ WF_vars(Unblock) /\ \A c \in Conns : WF_vars(Expire(c))
 
 \* never closed before the applicable limit has elapsed
-NotClosedBefore == \A c \in Conns : closedAt[c] >= 0 => closedAt[c] >= since[c] + Limit[PhaseOf(c)]
+NotClosedBefore == \A c \in Conns : closedAt[c] >= 0 => closedAt[c] >= entered[c] + Limit[PhaseOf(c)]
 \* never closed while waiting for the origin
 SlowOriginNeverCloses == \A c \in Conns : closedAt[c] >= 0 => PhaseOf(c) # "rt"
 \* a stalled peer is closed at its limit (timers fire on time: the clock cannot pass a due deadline)
-ClosedAtLimit == \A c \in Conns : (pos[c] >= 1 /\ closedAt[c] = -1 /\ Limited(PhaseOf(c))) => clock <= since[c] + Limit[PhaseOf(c)]
+ClosedAtLimit == \A c \in Conns : (pos[c] >= 1 /\ closedAt[c] = -1 /\ Limited(PhaseOf(c))) => clock <= entered[c] + Limit[PhaseOf(c)]
 \* the accept loop never executes a per-connection blocking step
 LoopNeverBlocks == loop = "accept"
 \* a well-behaved client is never closed
@@ -94,8 +100,12 @@ ProbeNotClosed == closedAt[Probe] >= 0 => served[Probe]
 Cases == { [stacking |-> st, at |-> i, phase |-> Phases(st)[i], limit |-> Limit[Phases(st)[i]]] :
              st \in Stackings, i \in 1..7 } 
 CaseSet == { c \in [stacking : Stackings, at : 1..7] : c.at <= Len(Phases(c.stacking)) /\ Limited(Phases(c.stacking)[c.at]) }
-EmitCases == \A c \in CaseSet : PrintT(ToJson([stacking |-> c.stacking, at |-> c.at, phase |-> Phases(c.stacking)[c.at],
-                                                limitName |-> Phases(c.stacking)[c.at]]))
+\* dwell: the peer first sits out every idle wait it passes for longer than the read-header limit (but less than
+\* the idle limit) and sends its heads in two pieces - legal, and no limit has elapsed
+HasIdleBefore(c) == \E i \in 1..(c.at - 1) : Phases(c.stacking)[i] = "idle"
+EmitCases == \A c \in CaseSet : \A dw \in {d \in BOOLEAN : d => HasIdleBefore(c)} :
+                PrintT(ToJson([stacking |-> c.stacking, at |-> c.at, phase |-> Phases(c.stacking)[c.at],
+                               limitName |-> Phases(c.stacking)[c.at], dwell |-> dw]))
 GenNext == FALSE /\ UNCHANGED vars
 EmitOnce == (stacking = "plain" /\ \A p \in Peers : stallAt[p] = 1) => EmitCases
 ==============================================================================
